@@ -419,6 +419,18 @@ def run(ctx):
         p = dict(a=a, q=q, thetas=[thetas(rng) for _ in range(nv)], units=['rad', 'deg'][rng.integers(2)],
                  lam=[0.0, float(rng.uniform(-5, 5)), float(gen.sign(rng) * gen.logu(rng, 1e-3, 1e3))], off=gen.vec(rng, 3, 1e-3, 1e3),
                  aslist=bool(rng.integers(2)))
+        if rng.random() < 0.12:
+            # a sweep: evenly spaced angles, exactly or nearly so (one spacing off by 1e-9 .. 1e-5 of itself), 3 .. 40 of them;
+            # also a constant and a decreasing vector
+            nv = int(rng.integers(3, 41)) if rng.random() < 0.5 else int(rng.integers(3, 7))
+            t0, d_ = float(rng.uniform(-3, 3)), float(gen.sign(rng) * gen.logu(rng, 1e-2, 1.0))
+            ths_ = [t0 + k_ * d_ for k_ in range(nv)]
+            r_ = rng.random()
+            if r_ < 0.5:
+                ths_[int(rng.integers(1, nv))] += d_ * gen.sign(rng) * gen.logu(rng, 1e-9, 1e-5)
+            elif r_ < 0.6:
+                ths_ = [t0] * nv
+            p['thetas'] = ths_
         if rng.random() < 0.4:
             p['thform'] = (['np.float64', '0d', '0d'] if nv == 1 else ['ndarray', 'tuple', 'readonly', 'strided'])[rng.integers(3 if nv == 1 else 4)]
         drive(RUNNERS, ctx, 'rev3', p)
@@ -426,11 +438,15 @@ def run(ctx):
             ctx.sample(dict(case='rev3', **p), limit=4)
     for _ in range(ctx.scale(400, 8000)):
         n = int(rng.integers(1, 5))
+        if rng.random() < 0.1:
+            n = int([8, 9, 16, 17, 32, 33, 40, 64, 100][rng.integers(9)])        # many values (a batch path would show here)
         k = [2, 3, -1, -2][rng.integers(4)] if rng.random() < 0.4 else float(thetas(rng))
         drive(RUNNERS, ctx, 'multi3', dict(kinds=['R' if rng.random() < 0.75 else 'P' for _ in range(n)], axes=[gen.axis(rng) for _ in range(n)],
                                             pts=[gen.vec(rng, 3, 1e-3, 1e3) for _ in range(n)], k=k, thetas=[float(thetas(rng)) for _ in range(n)]))
     for _ in range(ctx.scale(300, 6000)):
         n = int(rng.integers(2, 5))
+        if rng.random() < 0.1:
+            n = int([8, 9, 16, 17, 32, 33, 40, 64, 100][rng.integers(9)])        # many values (a batch path would show here)
         kinds = ['R' if rng.random() < 0.65 else 'P' for _ in range(n)]
         def pdir():        # a planar direction of non-zero length (the z axis of the 3D generator projects to nothing)
             d_ = gen.axis(rng)[:2]
@@ -451,4 +467,7 @@ def run(ctx):
             drive(RUNNERS, ctx, '2d', dict(which='Revolute', q=gen.vec(rng, 2, 1e-3, 1e3), thetas=[thetas(rng) for _ in range(nv)],
                                            units=['rad', 'deg'][rng.integers(2)], asarray=bool(rng.integers(2))))
         else:
-            drive(RUNNERS, ctx, '2d', dict(which='Prismatic', a=gen.axis(rng)[:2] + np.array([1e-3, 0]), thetas=[thetas(rng) for _ in range(nv)]))
+            a2_ = gen.axis(rng)[:2]
+            if np.linalg.norm(a2_) <= 1e-6:         # (the z axis of the 3D generator projects to nothing)
+                a2_ = np.array([1e-3, 0.0])
+            drive(RUNNERS, ctx, '2d', dict(which='Prismatic', a=a2_, thetas=[thetas(rng) for _ in range(nv)]))
